@@ -58,7 +58,7 @@ def build_receiver(recv, flat, lens):
         return RA(flat.copy(), list(lens)), None
     if recv == "ufunc":      # the direct result of a ufunc (built internally, possibly with other construction flags)
         base = RA(flat.copy(), list(lens))
-        return (base + flat.dtype.type(0)) if flat.dtype.kind != "b" else np.logical_or(base, False), None
+        return np.positive(base) if flat.dtype.kind != "b" else np.logical_or(base, False), None      # (x + 0 would turn -0.0 into 0.0)
     if recv == "astype":
         return RA(flat.copy(), list(lens)).astype(flat.dtype), None
     rows = gen.split_rows(flat, lens)
